@@ -58,7 +58,8 @@ def removalOnOrder (w : World) (m : Market) (rsel : Nat) (rhc : Rat) (raf : Opti
     let voided := match o.sim.kind with
       | .limit => o.sim.size
       | _ => o.sim.liability
-    { o with sim := { o.sim with sizeMatched := 0, avgPrice := 0, matched := [], sizeVoided := voided } }
+    { o with sim := { o.sim with sizeMatched := 0, avgPrice := 0, matched := [], sizeVoided := voided,
+                                 sizeCancelled := 0, sizeLapsed := 0, bspReconciled := true } }
   else if o.sim.kind = .marketOnClose ∧ o.sim.side = .lay then
     let book := m.book.getD {}
     let af := raf.getD 0
@@ -156,9 +157,9 @@ def simulatedMiddleware (w : World) (mid : Nat) : World :=
       else if r.status = .removed then
         let key := (r.sel, r.hc, r.af)
         if rem.contains key then (as, rem, nw) else (as, rem ++ [key], nw ++ [key])
-      else (as, rem, nw)) (m.analytics, w.removals, [])
-  let w := { w with removals := removals }
-  let w := w.modifyMarket mid fun m => { m with analytics := as, hasAnalytics := true }
+      else (as, rem, nw)) (m.analytics, m.removals, [])
+  let w := { w with removals := w.removals ++ newRemovals }
+  let w := w.modifyMarket mid fun m => { m with analytics := as, hasAnalytics := true, removals := removals }
   let w := newRemovals.foldl (fun w k => w.processRunnerRemoval mid k.1 k.2.1 k.2.2) w
   if (w.market! mid).active then w.mwProcessSimulatedOrders mid else w
 
